@@ -5,7 +5,7 @@
   It implies the provisos `TimeOk` (weekly, daily filler) and `AllDayOk` (yearly, monthly filler) of the per-filler
   theorems, and it is handed on from a filler's seed to everything the filler writes: the hour of an instant
   written is a BYHOUR value (< 24) or the seed's hour (`HFrom`).  Here: the definitions and the yearly and monthly
-  filler; part 2 (RrAsm2) has the weekly and daily filler.
+  filler; part 2 (RrAsm2) has the weekly and daily filler, parts 10-12 the sub-daily ones (hour always < 24).
 -/
 import Echse.Lemmas.RrYlyOk
 import Echse.Lemmas.RrMlyOk
